@@ -86,7 +86,7 @@ def import_eds(source, node_id):
                 pass
 
     if eds.has_section("DeviceComissioning"):
-        if val := eds.getint("DeviceComissioning", "Baudrate", fallback=None):
+        if val := int(eds.get("DeviceComissioning", "Baudrate", fallback="0"), 0):
             od.bitrate = val * 1000
 
         if node_id is None:
@@ -161,7 +161,7 @@ def import_eds(source, node_id):
         match = re.match(r"^([0-9A-Fa-f]{4})Name", section)
         if match is not None:
             index = int(match.group(1), 16)
-            num_of_entries = int(eds.get(section, "NrOfEntries"))
+            num_of_entries = int(eds.get(section, "NrOfEntries"), 0)
             entry = od[index]
             # For CompactSubObj index 1 is were we find the variable
             src_var = od[index][1]
